@@ -2,6 +2,7 @@
 from __future__ import annotations
 
 import ast
+import re
 
 from ..core import AnalysisError, norm_stmt_text, unparse, enclosing_stmt, enclosing_function
 from ..report import Finding
@@ -519,6 +520,14 @@ def apply_specs(repo, res, rows, rule='SPEC'):
                 res.add(Finding(rule, fullname, meaning, f.loc,
                                 f'{f.qualname}: {meaning} - no {"condition" if kind == "test" else "call"} with normal form `{want}` '
                                 f'(found: {[_safe_nf_expr(t) for t in pool][:6]})', {}))
+        elif kind == 'nret':
+            rets = [n for n in ast.walk(f.node) if isinstance(n, ast.Return)]
+            ok = len(rets) == int(text)
+            res.oblige(rule, f'{f.qualname}: {meaning}', ok, nontrivial=True, sample={'function': fullname, 'returns': len(rets)})
+            if not ok:
+                res.add(Finding(rule, fullname, meaning, f.loc,
+                                f'{f.qualname}: {meaning} - found {len(rets)} return statements: '
+                                f'{[unparse(r, 60) for r in rets][:4]}', {}))
         else:
             raise AnalysisError(f'unknown spec kind {kind}')
 
@@ -596,4 +605,163 @@ def run_round(repo, res, modules):
             res.add(Finding('ROUND', f.fullname, norm_stmt_text(st), f'{f.module.relpath}:{nd.lineno}',
                             f'{f.qualname}: `{unparse(nd, 60)}` rounds half to even; pixel indices are rounded half-up in this package '
                             f'(py2intround / floor(x + 0.5)) so that results shift exactly with integer translations', {}))
+    return n
+
+
+def run_loop_twin(repo, res, modules):
+    """`v = E; while test(v): ...; v = E'`: the re-evaluation inside the loop must be the expression that initialised v
+    (otherwise the loop is entered under one criterion and left under another)."""
+    n = 0
+    for f in repo.functions.values():
+        if f.module.name not in modules:
+            continue
+        for w in ast.walk(f.node):
+            if not isinstance(w, ast.While):
+                continue
+            tnames = {x.id for x in ast.walk(w.test) if isinstance(x, ast.Name)}
+            par = getattr(w, '_parent', None)
+            blk = None
+            for fld in ('body', 'orelse', 'finalbody'):
+                b = getattr(par, fld, None)
+                if isinstance(b, list) and any(x is w for x in b):
+                    blk = b
+            if blk is None:
+                continue
+            i = [k for k, x in enumerate(blk) if x is w][0]
+            for v in sorted(tnames):
+                init = [s for s in blk[:i] if isinstance(s, ast.Assign) and len(s.targets) == 1
+                        and isinstance(s.targets[0], ast.Name) and s.targets[0].id == v]
+                again = [s for s in ast.walk(w) if isinstance(s, ast.Assign) and len(s.targets) == 1
+                         and isinstance(s.targets[0], ast.Name) and s.targets[0].id == v]
+                if not init or not again:
+                    continue
+                e0 = init[-1].value
+                for s in again:
+                    if not (isinstance(e0, (ast.Call, ast.Subscript, ast.Compare, ast.BinOp)) and type(s.value) is type(e0)):
+                        continue
+                    # same shape (ignoring leaves) => meant to be the same test
+                    if _shape(e0) != _shape(s.value):
+                        continue
+                    n += 1
+                    ok = _safe_nf_expr(e0) == _safe_nf_expr(s.value)
+                    res.oblige('LOOP-TWIN', f'{f.qualname}: `{v}` is re-evaluated inside the while loop as it was initialised', ok,
+                               nontrivial=True, sample={'function': f.fullname, 'init': unparse(e0, 80), 'again': unparse(s.value, 80)})
+                    if not ok:
+                        res.add(Finding('LOOP-TWIN', f.fullname, f'{v}: {norm_stmt_text(init[-1])} / {norm_stmt_text(s)}',
+                                        f'{f.module.relpath}:{init[-1].lineno}',
+                                        f'{f.qualname}: `{v}` is initialised as `{unparse(e0, 70)}` but re-evaluated in the loop as '
+                                        f'`{unparse(s.value, 70)}`: elements are selected for the loop by one criterion and released by another', {}))
+    return n
+
+
+def _shape(e):
+    return tuple(type(x).__name__ for x in ast.walk(e) if not isinstance(x, (ast.Name, ast.Constant, ast.expr_context)))
+
+
+# SourceCatalog and ApertureStats carry copies of the same shape/moment code.  Vocabulary that legitimately differs:
+CLONE_RENAME = {'nlabels': 'n_apertures', '_moment_data_cutouts': '_moment_data_cutout'}
+CLONE_ACCEPTED = {
+    ('orientation', 'return mul(div(mul(orient_radians,180),pi),u.deg)', 'return mul(rad2deg(orient_radians),u.deg)'):
+        'degrees either way',
+    ('_validate_array', 'test ne(2,array.ndim)', 'test ne(array.ndim,ndim)'): 'ApertureStats takes ndim as a parameter (default 2)',
+    ('_all_masked', 'return array([all(mask) for mask in self._cutout_total_masks])',
+     'return array([all(mask) for mask in self._mask_cutout_center])'): 'each class names its own total mask',
+}
+CLONE_SKIP = {'__str__': 'presentation only', '__repr__': 'presentation only'}
+
+
+def _clone_stmts(f, ren=None):
+    from ..spec import nf_stmt
+    from ..expr import nf, rename
+    from ..axis import body_without_doc
+    out = []
+    for st in ast.walk(ast.Module(body=body_without_doc(f.node), type_ignores=[])):
+        node = rename(st, ren) if ren and isinstance(st, (ast.stmt,)) and isinstance(st, (ast.Assign, ast.AugAssign, ast.Return, ast.Expr, ast.If, ast.While)) else st
+        try:
+            if isinstance(node, (ast.Assign, ast.AugAssign, ast.Return, ast.Expr)):
+                out.append((nf_stmt(node), st))
+            elif isinstance(node, (ast.If, ast.While)):
+                out.append(('test ' + nf(node.test), st))
+        except Exception:
+            out.append((ast.dump(node)[:200], st))
+    return out
+
+
+def run_clones(repo, res, cls_a='photutils.segmentation.catalog.SourceCatalog', cls_b='photutils.aperture.stats.ApertureStats'):
+    """Copy-paste consistency (sibling cross-check): same-named methods of the two catalog classes that are near-clones must be
+    exact clones up to the vocabulary map; a fix or slip applied to one copy only is reported."""
+    import difflib
+    A, B = repo.get_class(cls_a), repo.get_class(cls_b)
+    ma = {f.name: f for f in A.all_functions() if f.cls is A or True}
+    mb = {f.name: f for f in B.all_functions()}
+    n = 0
+    for name in sorted(set(ma) & set(mb)):
+        fa, fb = ma[name], mb[name]
+        if fa.is_setter != fb.is_setter or fa.fullname == fb.fullname or name in CLONE_SKIP:
+            continue
+        sa_, sb = _clone_stmts(fa, CLONE_RENAME), _clone_stmts(fb)
+        ta, tb = [s for s, _ in sa_], [s for s, _ in sb]
+        if not ta or not tb:
+            continue
+        if max(len(ta), len(tb)) >= 3:
+            sim = len([s for s in ta if s in tb]) / max(len(ta), len(tb))
+        else:
+            sim = difflib.SequenceMatcher(None, ' ; '.join(ta), ' ; '.join(tb)).ratio()
+        if sim < 0.6:
+            continue
+        only_a = [(s, st) for s, st in sa_ if s not in tb]
+        only_b = [(s, st) for s, st in sb if s not in ta]
+        diffs = []
+        for (s1, st1) in only_a:
+            # pair with the most similar B-only statement
+            best = max(only_b, key=lambda x: difflib.SequenceMatcher(None, s1, x[0]).ratio(), default=None)
+            s2, st2 = best if best else ('<nothing>', None)
+            if (name, s1, s2) in CLONE_ACCEPTED:
+                continue
+            diffs.append((s1, s2, st1, st2))
+        if not only_a:
+            for (s2, st2) in only_b:
+                diffs.append(('<nothing>', s2, None, st2))
+        n += 1
+        res.oblige('CLONE', f'{A.name}.{name} and {B.name}.{name} (copies of the same code) agree', not diffs, nontrivial=True,
+                   sample={'method': name, 'similarity': round(sim, 2), 'statements': len(ta)})
+        for s1, s2, st1, st2 in diffs:
+            st = st2 or st1
+            owner = fb if st is st2 else fa
+            res.add(Finding('CLONE', owner.fullname, f'{name}: {s1[:80]} / {s2[:80]}', f'{owner.module.relpath}:{st.lineno}',
+                            f'{A.name}.{name} and {B.name}.{name} are copies of the same code but disagree: `{s1[:110]}` vs `{s2[:110]}`; '
+                            f'one of the two catalogs computes this quantity differently', {}))
+    return n
+
+
+def run_cast_to_data_dtype(repo, res, modules):
+    """A value that is not the image itself is never forced into the image's dtype (`x.astype(data.dtype)`, `dtype=data.dtype`):
+    for integer images that truncates backgrounds, thresholds and weights."""
+    img = re.compile(r'(^|\.)(_?data|image|img|_?convolved_data)$')
+    n = 0
+    for f in repo.functions.values():
+        if f.module.name not in modules:
+            continue
+        bad = []
+        for nd in ast.walk(f.node):
+            if not isinstance(nd, ast.Call):
+                continue
+            dt = None
+            if isinstance(nd.func, ast.Attribute) and nd.func.attr == 'astype' and nd.args:
+                dt, subject = nd.args[0], unparse(nd.func.value, 0)
+            else:
+                kw = next((k.value for k in nd.keywords if k.arg == 'dtype'), None)
+                if kw is not None:
+                    dt, subject = kw, ', '.join(unparse(a, 0) for a in nd.args)
+            if isinstance(dt, ast.Attribute) and dt.attr == 'dtype' and img.search(unparse(dt.value, 0)):
+                base = unparse(dt.value, 0)
+                if base not in subject:
+                    bad.append((nd, base, subject))
+        n += 1
+        res.oblige('CASTDT', f'{f.qualname} forces no foreign value into the image dtype', not bad, nontrivial=bool(bad) or 'dtype' in ast.unparse(f.node))
+        for nd, base, subject in bad:
+            st = enclosing_stmt(nd)
+            res.add(Finding('CASTDT', f.fullname, norm_stmt_text(st), f'{f.module.relpath}:{nd.lineno}',
+                            f'{f.qualname}: `{unparse(nd, 70)}` casts `{subject[:40]}` to the dtype of `{base}`: with an integer image the '
+                            f'fractional part is lost, so integer and float images give different results', {}))
     return n
